@@ -96,6 +96,7 @@ type CallbackContract struct {
 	Requires []*Clause
 	Updates  []*Clause
 	Returns  []*Clause
+	Pure     bool
 }
 
 func splitLabel(word string) (string, string) {
@@ -366,6 +367,10 @@ func parseContracts(fset *token.FileSet, f *ast.File, pkgPath string) ([]*FuncCo
 					cb.Updates = append(cb.Updates, cl)
 				case "returns":
 					cb.Returns = append(cb.Returns, cl)
+				case "pure":
+					// the callback (a function parameter, or a function-valued struct field of that name) is assumed
+					// not to write anything this function can observe
+					cb.Pure = true
 				default:
 					return nil, fmt.Errorf("%s: unknown callback clause %q", fset.Position(cm.Pos()), kk)
 				}
